@@ -81,6 +81,9 @@ func (s *Src) Title() string         { return s.Name }
 func (s *Src) Owner() *ext.Owner     { return &s.Imp }
 func (s *Src) Fail() (string, error) { return "", nil }
 
+// Scaled takes a parameter: it is no getter, `Scaled()` in a notation names nothing callable.
+func (s *Src) Scaled(n int) string { return s.Name }
+
 type Dst struct {
 	ID   int
 	Name string
